@@ -67,7 +67,7 @@ def run_fv(args, timeout=1800, fv=None, env=None):
 
 
 RE_STATES = re.compile(r"(\d+) states generated, (\d+) distinct states found")
-RE_VERDICT = re.compile(r'^"?VERDICT\|([^|]*)\|(pass|FAIL|skip)\|(.*?)"?$')
+RE_VERDICT = re.compile(r'^"?VERDICT\|([^|]*)\|(pass|FAIL|skip|DIVERGED)\|(.*?)"?$')
 
 
 def run_tlc(module, cfg, env_extra=None, tag="x", timeout=1800, workers=1, xmx="2g", extra=None, cwd=SPEC):
